@@ -422,4 +422,7 @@ def run(tier, seed):
             ck.validated += 1
         else:
             ck.engine_errors.append('translator validation mismatch DMA cfg %r' % (cfg,))
+    # Teakra::DMAChan0GetSrcHigh/DstHigh and the AHBM getters of the public API (real object graph)
+    from checks import facade
+    facade.obligations(ck, 'dma')
     return ck.finish('one-element step lemma, bounded whole transfers against the dma.md sequence, AHBM bursts')
